@@ -390,8 +390,12 @@ func firstLetterToBox(context *layoutContext, box Box, skipStack tree.ResumeStac
 	if textBox, ok := child.(*bo.TextBox); ok {
 		letterStyle := tree.ComputedFromCascaded(nil, nil, firstLetterStyle, context)
 		if strings.HasSuffix(textBox.ElementTag(), "::first-letter") {
-			letterBox := bo.NewInlineBox(letterStyle, textBox.Element, "first-letter", []Box{child})
-			box.Box().Children[0] = letterBox
+			// a box laid out again (column balancing, re-pagination) already has its letter
+			// box: wrapping the letter once more at every layout nests the boxes without end
+			if _, isInline := box.(*bo.InlineBox); !(isInline && strings.HasSuffix(box.Box().ElementTag(), "::first-letter")) {
+				letterBox := bo.NewInlineBox(letterStyle, textBox.Element, "first-letter", []Box{child})
+				box.Box().Children[0] = letterBox
+			}
 		} else if len(textBox.Text) != 0 {
 			text := textBox.Text
 			characterFound := false
